@@ -74,7 +74,12 @@ def c13_t1(ctx, f):
                     fits.append((e["callee"], a[3], [to_py(x) for x in a[4]]))
         inst = "width=%s,height=%s" % ("set" if hw else "unset", "set" if hh else "unset")
         users = sorted({c.split("::")[-1] for c, _, _ in fits})
-        ok = bool(fits) and all((v, p) == exp for _, v, p in fits) and "render" in users and "fit_to" in users
+        agree = bool(fits) and all((v, p) == exp for _, v, p in fits)
+        ok = agree and "render" in users and "fit_to" in users
+        if (agree or not fits) and not ok and r.kind != "ret":
+            # the folder did not get as far as the rendering call (code outside its language): what it saw agrees
+            ctx.abstain(rid, "%s: to_pixmap not folded up to the render call (%s: %s)" % (inst, r.kind, r.why), where_fn(fn))
+            continue
         ctx.check(rid, ok, "%s/fit/%s" % (fn.path, inst), where_fn(fn), fn.path, inst,
                   "the fit request is translated to the wrong FitTo (or size computation and rendering use different ones)",
                   expected=exp, found=[(c.split("::")[-1], v, p) for c, v, p in fits] or str(r),
